@@ -290,3 +290,121 @@ def eval_local(fdef, name, env, methods=None, stop_at=None):
     block(fdef.body)
     v = scope.get(name, TOP)
     return v
+
+
+# ---- reach conditions: the condition under which a statement executes, independent of how the guards are nested / merged / inverted
+def _always_jumps(stmts):
+    if not stmts:
+        return False
+    last = stmts[-1]
+    if isinstance(last, (ast.Continue, ast.Break, ast.Return, ast.Raise)):
+        return True
+    if isinstance(last, ast.If):
+        return _always_jumps(last.body) and _always_jumps(last.orelse)
+    return False
+
+
+def _contains(s, target):
+    return s is target or any(x is target for x in ast.walk(s))
+
+
+def reach_conds(stmts, target):
+    """list of (test expr, polarity) that all hold when `target` (a statement or expression below `stmts`) executes, counted from the start of
+    `stmts`: enclosing if-tests with their polarity, and the negations of preceding sibling guards whose body always jumps away
+    (`if c: continue` ... target  ==>  not c).  None when target is not below stmts."""
+    for i, s in enumerate(stmts):
+        if not _contains(s, target):
+            continue
+        conds = []
+        for p in stmts[:i]:
+            if isinstance(p, ast.If):
+                if _always_jumps(p.body) and not _always_jumps(p.orelse):
+                    conds.append((p.test, False))
+                elif p.orelse and _always_jumps(p.orelse) and not _always_jumps(p.body):
+                    conds.append((p.test, True))
+        if s is target:
+            return conds
+        if isinstance(s, ast.If):
+            if _contains(s.test, target):
+                return conds
+            inb = any(_contains(x, target) for x in s.body)
+            sub = reach_conds(s.body if inb else s.orelse, target)
+            return conds + [(s.test, inb)] + (sub or [])
+        for fld in ('body', 'orelse', 'finalbody'):
+            blk = getattr(s, fld, None)
+            if isinstance(blk, list) and any(_contains(x, target) for x in blk if isinstance(x, ast.AST)):
+                return conds + (reach_conds(blk, target) or [])
+        if isinstance(s, ast.Try):
+            for h in s.handlers:
+                if any(_contains(x, target) for x in h.body):
+                    return conds + (reach_conds(h.body, target) or [])
+        return conds
+    return None
+
+
+def reach_expr(stmts, target):
+    """the reach condition as one boolean expression (an ast node), True constant when unconditional; None if target not found"""
+    cs = reach_conds(stmts, target)
+    if cs is None:
+        return None
+    vals = [t if pol else ast.UnaryOp(op=ast.Not(), operand=t) for t, pol in cs]
+    if not vals:
+        return ast.Constant(value=True)
+    if len(vals) == 1:
+        return ast.fix_missing_locations(ast.copy_location(vals[0], cs[0][0])) if isinstance(vals[0], ast.UnaryOp) else vals[0]
+    e = ast.BoolOp(op=ast.And(), values=vals)
+    return ast.fix_missing_locations(ast.copy_location(e, cs[0][0]))
+
+
+def final_assignments(stmts, atoms, names, upto=None, max_paths=5000):
+    """Enumerates the feasible control-flow paths of `stmts` under the 3-valued atom valuation `atoms(expr) -> True/False/UNK` (infeasible
+    branches are pruned) and returns, per path, (terminal kind, {name: last assigned value expression}) for the given local names.
+    `upto`: stop a path when the CFG node containing this AST node is reached (terminal kind 'upto').  Independent of whether an
+    assignment is written as if/else, conditional expression (N4) or with early exits."""
+    from .cfg import CFG, eval3, UNK
+    cfg = CFG(stmts, exceptions=False)
+    stop_ids = set(cfg_nodes_containing(cfg, upto)) if upto is not None else set()
+
+    def step(state, node, label):
+        env, stopped = state
+        if stopped:
+            return None
+        if node.id in stop_ids:
+            return (env, True) if label in ('', 'next', 'true', 'false', 'body', 'exit', 'fall') or True else None
+        if node.kind == 'test' and label in ('true', 'false') and isinstance(node.ast, (ast.If, ast.While)):
+            v = eval3(node.ast.test, {}, atoms)
+            if v is not UNK and bool(v) != (label == 'true'):
+                return None
+        if node.kind == 'stmt' and isinstance(node.ast, ast.Assign):
+            for t in node.ast.targets:
+                if isinstance(t, ast.Name) and t.id in names:
+                    env = dict(env)
+                    env[t.id] = node.ast.value
+        return (env, False)
+    out = []
+    seen_stop = set()
+    for p, (env, stopped) in cfg.paths(state0=({}, False), step=step, max_paths=max_paths):
+        kind = cfg.nodes[p[-1][0]].info
+        out.append((kind, env))
+    if upto is not None:
+        # paths cut at `upto`: collect the environments that reach it
+        res = []
+
+        def step2(state, node, label):
+            env = state
+            if node.kind == 'test' and label in ('true', 'false') and isinstance(node.ast, (ast.If, ast.While)):
+                v = eval3(node.ast.test, {}, atoms)
+                if v is not UNK and bool(v) != (label == 'true'):
+                    return None
+            if node.id in stop_ids:
+                res.append(env)
+                return None
+            if node.kind == 'stmt' and isinstance(node.ast, ast.Assign):
+                for t in node.ast.targets:
+                    if isinstance(t, ast.Name) and t.id in names:
+                        env = dict(env)
+                        env[t.id] = node.ast.value
+            return env
+        cfg.paths(state0={}, step=step2, max_paths=max_paths)
+        return [('upto', e) for e in res]
+    return out
